@@ -101,3 +101,50 @@ Definition check13 (c : case13) : nat :=
         | None => true
         end
   then 0%nat else 1%nat.
+
+(* ---- C12: container primitives ---- *)
+From AG Require Import ContainerOps.
+
+Inductive cop :=
+| OTake (idx : index)
+| OExtR (elts : list ztree)      (* x + elts, differentiated with respect to x *)
+| OExtL (elts : list ztree).     (* elts + x *)
+
+Definition cop_apply (o : cop) (x : ztree) : option ztree :=
+  match o with
+  | OTake idx => take Z x idx
+  | OExtR elts => extend_right Z x elts
+  | OExtL elts => extend_left Z x elts
+  end.
+
+Definition seq_len (x : ztree) : nat := match x with Seq _ l => length l | _ => 0%nat end.
+
+Definition cop_vjp (o : cop) (x g : ztree) : option ztree :=
+  match o with
+  | OTake idx => untake Z 0 g idx (zvspace x)
+  | OExtR elts => extend_right_vjp Z 0 (seq_len x) g
+  | OExtL elts => extend_left_vjp Z 0 (length elts) g
+  end.
+
+Definition otree_eqb (a b : option ztree) : bool :=
+  match a, b with
+  | Some x, Some y => tree_eqb x y
+  | None, None => true
+  | _, _ => false
+  end.
+
+Record case12 := {
+  k_x : ztree; k_op : cop; k_g : ztree;
+  j_out : option ztree;     (* implementation f(x); None = raised *)
+  j_vjp : option ztree;     (* implementation make_vjp(f)(x)[0](g), densified *)
+  j_adjoint_ok : bool       (* <g, f(b)> = <vjp(g), b> for every basis vector b, on the implementation *)
+}.
+
+Definition check12 (c : case12) : nat :=
+  if negb c.(j_adjoint_ok) then 2%nat else
+  if otree_eqb (cop_apply c.(k_op) c.(k_x)) c.(j_out)
+     && match c.(j_out) with
+        | Some _ => otree_eqb (cop_vjp c.(k_op) c.(k_x) c.(k_g)) c.(j_vjp)
+        | None => true
+        end
+  then 0%nat else 1%nat.
